@@ -71,8 +71,11 @@ theorem registerAlias_equiv {i j : Info} (h : Info.Equiv i j) (pub : Bool) (pre 
     simp only [Bool.false_eq_true, ↓reduceIte]
     exact ⟨h.vis, h.ctx, by simp [h.alias], h.wild, h.loaded, h.fileErrs⟩
   | true =>
-    simp only [↓reduceIte, h.vis m]
-    exact ⟨get?_cons_congr _ h.vis, h.ctx, by simp [h.alias], h.wild, h.loaded, h.fileErrs⟩
+    simp only [↓reduceIte, h.vis m, h.vis (pre ++ [a])]
+    refine ⟨?_, h.ctx, by simp [h.alias], h.wild, h.loaded, h.fileErrs⟩
+    split
+    · exact h.vis
+    · exact get?_cons_congr _ h.vis
 
 theorem processUse_equiv {i j : Info} (h : Info.Equiv i j) (pub : Bool) (path : List Name) (t : UseTarget)
     (pre : List Name) : Info.Equiv (processUse pub path t pre i) (processUse pub path t pre j) := by
@@ -300,8 +303,8 @@ theorem resolveUseMangled_cases (segs pre : List Name) (i : Info) :
   · exact Or.inl rfl
   · exact Or.inr rfl
 
-/-- `register_alias` commutes with a binder whose key is neither the exported name nor the target (whose visibility
-entry the re-export reads since /repo c6822e4) -/
+/-- `register_alias` commutes with a binder whose key is neither the exported name (whose entry the re-export reads and,
+if absent, writes) nor the target (whose visibility entry the re-export reads since /repo c6822e4) -/
 theorem registerAlias_addBinder (i : Info) (v : Option (Sym × Bool)) (c : Option (Sym × List Name)) (K : Sym)
     (hv : ∀ p, v = some p → p.1 = K) (pub : Bool) (pre : List Name) (a : Name) (m : Sym) (hk : pre ++ [a] ≠ K)
     (hm : m ≠ K) :
@@ -319,10 +322,14 @@ theorem registerAlias_addBinder (i : Info) (v : Option (Sym × Bool)) (c : Optio
       simp only [addBinder]
       have hpm : get? (p :: i.vis) m = get? i.vis m := by
         rw [get?_cons, if_neg]; rw [hv p rfl]; exact fun h => hm h.symm
-      rw [hpm]
-      apply get?_swap
-      rw [hv p rfl]
-      exact hk
+      have hpe : get? (p :: i.vis) (pre ++ [a]) = get? i.vis (pre ++ [a]) := by
+        rw [get?_cons, if_neg]; rw [hv p rfl]; exact fun h => hk h.symm
+      simp only [hpm, hpe]
+      split
+      · rfl
+      · apply get?_swap
+        rw [hv p rfl]
+        exact hk
 
 theorem foldl_registerAlias_addBinder (v : Option (Sym × Bool)) (c : Option (Sym × List Name)) (K : Sym)
     (hv : ∀ p, v = some p → p.1 = K) (hc : ∀ p, c = some p → p.1 = K) (pub : Bool) (path pre : List Name)
